@@ -21,7 +21,7 @@ Fixpoint doc_headings (off id : nat) (t : tok) : list (nat * nat) :=
       (fix go (l : list tok) (id : nat) : list (nat * nat) :=
          match l with
          | [] => []
-         | x :: l' => doc_headings o id x ++ go l' (id + count_headings x)
+         | x :: l' => doc_headings (off + o) id x ++ go l' (id + count_headings x)
          end) ts id
   end.
 
@@ -31,7 +31,7 @@ Fixpoint doc_headings_list (off id : nat) (l : list tok) : list (nat * nat) :=
   | x :: l' => doc_headings off id x ++ doc_headings_list off (id + count_headings x) l'
   end.
 
-Lemma doc_headings_include o ts off id : doc_headings off id (TInclude o ts) = doc_headings_list o id ts.
+Lemma doc_headings_include o ts off id : doc_headings off id (TInclude o ts) = doc_headings_list (off + o) id ts.
 Proof.
   cbn [doc_headings]. revert id. induction ts as [|x l IH]; intro id; simpl; auto. rewrite IH. reflexivity.
 Qed.
@@ -294,9 +294,9 @@ Proof.
     destruct (directive_headings_are_rubrics ts s Hfr Hnt) as (s' & H1 & A1 & A2 & A3 & A4 & A5 & A6 & A7 & A8).
     exists s'. split; auto. cbn [doc_headings]. rewrite app_nil_r.
     destruct HI as (A & B & C & D & E & F). unfold DInv. rewrite A1, A2, A4, A5, A6.
-    repeat split; auto.
+    repeat split; auto. unfold count_headings. simpl. rewrite A8, (count_flat (hoff s)). reflexivity.
   - cbn [tags_ok] in Hok. cbn [no_titles] in Hnt. cbn [render]. unfold nested_render_text.
-    assert (HI2 : DInv hl (set_hoff s o)) by exact HI.
+    assert (HI2 : DInv hl (set_hoff s (hoff s + o))) by exact HI.
     destruct (mfold_doc ts IH Hok Hnt hl _ HI2) as (s3 & H3 & HI3 & Hoff3 & Hnh3). cbn [bind]. rewrite H3. cbn [bind].
     eexists. split; [reflexivity|]. rewrite doc_headings_include. cbn in *.
     split; [exact HI3|]. split; auto. unfold count_headings. simpl. rewrite Hnh3, (count_flat o). reflexivity.
@@ -312,4 +312,32 @@ Proof.
   assert (HF : Forall doc_step ts) by (apply Forall_forall; intros t _; apply render_doc).
   destruct (mfold_doc ts HF Hok Hnt [] init DInv_init) as (s & H & HI & _).
   exists s. split; auto. simpl in HI. destruct HI as (_ & _ & _ & _ & E & F). auto.
+Qed.
+
+(* ---------- the open finding, characterised ---------- *)
+
+(* A directive that nested-parses with match_titles=True, rendered in ANY state (the current node
+   may be a block quote, a list item, ...) whose level map is the one after the document-level
+   headings hl: a heading directly in its body opens a section, and that section is attached to the
+   node the specification names for a document-level heading of that level at this point - the
+   closest still-open heading of lower level among hl, else the document - not to the directive's
+   node and not to the current container.  Afterwards level map, current node, offset and temp root
+   are as before. *)
+Theorem titled_directive_attaches hl s tag :
+  InvG hl (lvl s) -> Forall (fun x => 1 <= snd x) hl -> 1 <= tag ->
+  exists s' p, render (TDirective true [THeading tag]) s = Ok s' /\
+    ParentSpec (levels hl ++ [tag + hoff s]) (length hl) p /\
+    secs (log s') = secs (log s) ++ [(pref_ids (hl ++ [(nh s, tag + hoff s)]) p, nh s)] /\
+    lvl s' = lvl s /\ cur s' = cur s /\ hoff s' = hoff s /\ troot s' = troot s.
+Proof.
+  intros HI Hge Ht.
+  set (L := tag + hoff s). assert (HL : 1 <= L) by (unfold L; lia).
+  destruct (parent_lookupG hl (lvl s) L HI Hge HL) as (pl & r & p & Hmax & Hget & Hlt & Hp & Hr & Hpl).
+  cbn [render]. unfold nested_render_text. cbn [mfold]. cbn [render].
+  unfold render_heading. cbn [troot set_troot set_hoff set_cur set_nc set_nh cur hoff nh lvl].
+  rewrite Nat.add_0_r. fold L. cbn [nref_eqb]. rewrite Nat.eqb_refl. cbn [orb negb].
+  unfold update_section_level_state. cbn [lvl cur set_nh set_troot set_hoff set_cur set_nc]. rewrite Hmax. cbn [bind]. rewrite Hget. cbn [bind].
+  eexists. exists p. split; [reflexivity|]. split; [exact Hp|].
+  rewrite (Hr (nh s, L)).
+  destruct ((pl <? L) && negb (pl + 1 =? L)); cbn; rewrite ?secs_app; cbn; rewrite ?app_nil_r; repeat split; auto.
 Qed.
